@@ -1,9 +1,15 @@
 (* C03 — Alpha optimisation may only change colour under fully transparent pixels.
-   PROVED: the relation is an equivalence; per pixel, any recolouring of a fully transparent
-   pixel (including its replacement by a colour-key sample) is alpha-equivalent. The image-level
-   lift and the filter-specific rewrite of optimize_alpha are decided per run by correspondence
+   PROVED: the relation is an equivalence (on pixels and on pictures); per pixel, any recolouring of a fully
+   transparent pixel (including its replacement by a colour-key sample) is alpha-equivalent; AT IMAGE LEVEL
+   (every size, interlaced or not) each alpha-optimising transformation - blackening of transparent pixels,
+   alpha-channel removal with an unused colour as key, palette condensation with merged transparent entries,
+   indexed->channels - maps a well-formed image that means `pic` to a well-formed image that means a picture
+   alpha-equivalent to `pic`; and the whole reduction pipeline, with or without alpha optimisation, keeps every
+   candidate alpha-equivalent to the input (C03_reductions_alpha_partial; `leaves` as in C01).
+   The filter-specific rewrite of optimize_alpha (rows) and the container are decided per run by correspondence
    and the specification oracle (alpha-equivalence of decoded input and output). *)
-From OxiVerif Require Import Base.Common Spec.Adam7 Spec.Sem Model.Types Proofs.Bridge Proofs.PixelProofs.
+From OxiVerif Require Import Base.Common Spec.Adam7 Spec.Sem Model.Types Model.Options Model.Color Model.Palette Model.Reductions
+  Proofs.Bridge Proofs.PixelProofs Proofs.ImageLift Proofs.LiftColor Proofs.LiftAlpha Proofs.PipelineLossless.
 
 Theorem C03_partial_transparent_rgba : forall d r g b r' g' b',
   match color_of_samples SRGBA d [r; g; b; 0], color_of_samples SRGBA d [r'; g'; b'; 0] with
@@ -35,3 +41,52 @@ Theorem C03_alpha_equiv_is_equivalence :
   (forall p q s, rgba_alpha_equivb p q = true -> rgba_alpha_equivb q s = true -> rgba_alpha_equivb p s = true).
 Proof. split; [exact rgba_alpha_equivb_refl|split; [exact rgba_alpha_equivb_sym|exact rgba_alpha_equivb_trans]]. Qed.
 Print Assumptions C03_alpha_equiv_is_equivalence.
+
+(* ------------------------------------------------------------------ image level *)
+Theorem C03_picture_equiv_is_equivalence :
+  (forall p, pic_aequiv p p) /\ (forall p q r, pic_aequiv p q -> pic_aequiv q r -> pic_aequiv p r).
+Proof. split; [exact pic_aequiv_refl|exact pic_aequiv_trans]. Qed.
+Print Assumptions C03_picture_equiv_is_equivalence.
+
+Theorem C03_image_cleaned_alpha : forall img img' pic, wf img ->
+  cleaned_alpha_channel img = Some img' -> sem img = Some pic ->
+  (exists pic', sem img' = Some pic' /\ pic_aequiv pic pic') /\ wf img'.
+Proof. exact cleaned_alpha_channel_aequiv. Qed.
+Print Assumptions C03_image_cleaned_alpha.
+
+Theorem C03_image_alpha_to_key : forall img img' pic, wf img ->
+  reduced_alpha_channel img true = Some img' -> sem img = Some pic ->
+  (exists pic', sem img' = Some pic' /\ pic_aequiv pic pic') /\ wf img'.
+Proof. exact reduced_alpha_channel_aequiv. Qed.
+Print Assumptions C03_image_alpha_to_key.
+
+Theorem C03_image_reduced_palette : forall img img' pic, wf img ->
+  reduced_palette img true = Some img' -> sem img = Some pic ->
+  (exists pic', sem img' = Some pic' /\ pic_aequiv pic pic') /\ wf img'.
+Proof. exact reduced_palette_aequiv. Qed.
+Print Assumptions C03_image_reduced_palette.
+
+Theorem C03_image_indexed_to_channels : forall img img' allow_gray pic, wf img ->
+  indexed_to_channels img allow_gray true = Some img' -> sem img = Some pic ->
+  (exists pic', sem img' = Some pic' /\ pic_aequiv pic pic') /\ wf img'.
+Proof. exact indexed_to_channels_aequiv. Qed.
+Print Assumptions C03_image_indexed_to_channels.
+
+(* the lifting principle: pixelwise alpha-equivalent byte-aligned images decode to alpha-equivalent pictures *)
+Theorem C03_lift_aequiv : forall w h il pc pc' (B B' : nat) (pxs pxs' : list (list Z)) pic,
+  (0 < B)%nat -> (0 < B')%nat ->
+  Forall (fun px => length px = B) pxs -> Forall (fun px => length px = B') pxs' ->
+  Forall2 (fun px px' => aequiv (pc (sbits_of_bytes px)) (pc' (sbits_of_bytes px'))) pxs pxs' ->
+  gsem w h (8 * Z.of_nat B) il pc (concat pxs) = Some pic ->
+  exists pic', gsem w h (8 * Z.of_nat B') il pc' (concat pxs') = Some pic' /\ pic_aequiv pic pic'.
+Proof. exact aequiv_gsem. Qed.
+Print Assumptions C03_lift_aequiv.
+
+(* ------------------------------------------------------------------ the reduction pipeline, alpha optimisation on or off *)
+Theorem C03_reductions_alpha_partial : forall (L : leaves) e o img pic baseline evs,
+  scale_16 o = false ->
+  ameans pic img ->
+  perform_reductions e o img = Ok (baseline, evs) ->
+  ameans pic baseline /\ Forall (cand_ameans pic) evs.
+Proof. exact perform_reductions_alpha_partial. Qed.
+Print Assumptions C03_reductions_alpha_partial.
